@@ -239,6 +239,14 @@ func (b *Bounds) facts(at ssa.Instruction) []cons {
 			case EQ:
 				add(xn, xk, yn, yk, 0)
 				add(yn, yk, xn, xk, 0)
+			case NE:
+				// x != c where x is a length (>= 0) and c == 0: x >= 1 (and symmetrically)
+				if yn == zeroNode && yk == 0 && xn.len {
+					add(yn, yk, xn, xk, -1)
+				}
+				if xn == zeroNode && xk == 0 && yn.len {
+					add(xn, xk, yn, yk, -1)
+				}
 			}
 		}
 	}
@@ -276,6 +284,11 @@ func (b *Bounds) nonNeg(v ssa.Value, depth int) bool {
 		}
 	case *ssa.Call:
 		if bi, ok := x.Call.Value.(*ssa.Builtin); ok && (bi.Name() == "len" || bi.Name() == "cap") {
+			return true
+		}
+		// sizes reported by the standard library are non-negative by contract
+		switch CalleeRef(&x.Call) {
+		case "crypto/cipher.AEAD.NonceSize", "crypto/cipher.AEAD.Overhead", "crypto/cipher.Block.BlockSize", "bytes.Buffer.Len", "hash.Hash.Size":
 			return true
 		}
 	case *ssa.BinOp:
